@@ -709,7 +709,8 @@ def gen_assertions(rnd, L, sig, tg, depth, n_assert, planted_p=0.55, dense_p=0.2
         vs = sig.vars[srt]
         lit = (lambda v: int_lit(v)) if srt == "Int" else (lambda v: real_lit(rnd, v))
         dense = []
-        for _ in range(rnd.randint(8, 40)):
+        # near the sat/unsat boundary of such systems (about 1.2-3 clauses per variable); far above it everything is unsat
+        for _ in range(rnd.randint(len(vs) + 1, 3 * len(vs) + 2) if rnd.random() < 0.8 else rnd.randint(8, 40)):
             lits = []
             for _ in range(1 if rnd.random() < 0.35 else 2):
                 x, y = rnd.sample(vs, 2)
